@@ -195,15 +195,24 @@ theorem NP_chainedLookup (unk : Bool) : ∀ (keys : List Str) (ch : List Obj), N
     · exact NP_chainedLookup unk (k2 :: rest) _
     · simp [NP]
 
-theorem NP_lookupKey (c : Cfg) (key : Str) (m : Obj) : NP (lookupKey c key m) := by
+theorem NP_firstLookup (unk inh : Bool) (anc : List Obj) (k : Str) (m : Obj) : NP (firstLookup unk inh anc k m) := by
+  unfold firstLookup
+  split
+  · exact NP_recLookup _ _ _
+  · simp [NP]
+
+theorem NP_lookupKey (c : Cfg) (inh : Bool) (key : Str) (m : Obj) : NP (lookupKey c inh key m) := by
   unfold lookupKey
   split
-  · simp [NP]
+  · exact NP_firstLookup _ _ _ _ _
   · unfold dottedLookup
     split
     · simp [NP]
-    · simp [NP]
+    · exact NP_firstLookup _ _ _ _ _
     · split
+      · rename_i k _ _ _ _ e he
+        have h1 := NP_firstLookup false inh c.anc k m
+        rw [he] at h1; simpa [NP] using h1
       · exact NP_chainedLookup _ _ _
       · simp [NP]
 
@@ -233,9 +242,8 @@ theorem NP_fieldCore {c : Cfg} {name : Str} {tag : Option Str} {isSlice : Bool} 
       | ok o =>
       simp only
       split; · simp [NP]
-      split; · simp [NP]
-      have hl := NP_lookupKey c key m
-      cases hlk : lookupKey c key m with
+      have hl := NP_lookupKey c (optInherit o) key m
+      cases hlk : lookupKey c (optInherit o) key m with
       | error e => rw [hlk] at hl; simpa [NP] using hl
       | ok lk =>
         cases lk with
@@ -413,8 +421,8 @@ theorem NP_unmFields (c : Cfg) (hc : c.pinned = false) :
     obtain ⟨⟨h1, h2⟩, h3⟩ := h
     unfold unmFields
     have hf := NP_fieldCore (c := c) (name := name) (tag := tag) (isSlice := t.isSlice) (m := m)
-      (wv := fun o j => withValue c.nest o t j) (ar := fun _ => absentRequired c t) (dv := defaultVal c t) (z := zero t)
-      hc h1 (fun o j => NP_withValue c.nest (Cfg.nest_pinned hc) t o j h2) (NP_absentRequired c hc t h2) (NP_defaultVal c hc t)
+      (wv := fun o j => withValue (c.nestIn m) o t j) (ar := fun _ => absentRequired c t) (dv := defaultVal c t) (z := zero t)
+      hc h1 (fun o j => NP_withValue (c.nestIn m) (Cfg.nest_pinned hc) t o j h2) (NP_absentRequired c hc t h2) (NP_defaultVal c hc t)
     have hr := NP_unmFields c hc rest m h3
     unfold NP at *
     intro h
